@@ -2,7 +2,11 @@
 
 
 def term(t):
+    if "share" in t:
+        return f"T{t['share']}<{term({k: v for k, v in t.items() if k != 'share'})}>"
     k = t["t"]
+    if k == "symcall":
+        return f"{t['name']}({term(t['of'])})"
     if k == "var":
         return f"v{t['i']}"
     if k == "dvar":
@@ -25,6 +29,8 @@ def term(t):
 
 
 def cond(c):
+    if "share" in c:
+        return f"A{c['share']}<{cond({k: v for k, v in c.items() if k != 'share'})}>"
     k = c["c"]
     if k == "shared":
         return f"S{c['i']}<{cond(c['ref'])}>"
